@@ -224,20 +224,22 @@ def run(ctx):
             bad = []
             for s in range(64):
                 e = subst(newraw, sqidx, ("int", s, "u8")) if sqidx else newraw
+                # the yielded square s is the lowest set bit of the state: bits below s are 0, bit s is 1
+                As = [const_bit(0)] * s + [const_bit(1)] + list(A[s + 1:])
                 try:
-                    got = BitEval({STATE: A}).vec(e)
+                    got = BitEval({STATE: As}).vec(e)
                 except CannotBit as ex:
                     bad.append((s, str(ex)))
                     break
-                # the yielded square is the lowest *set* bit: under A[s] = 1 the new state must have bit s clear
-                # and every other bit unchanged (covers both `^= bit` and `-= bit`)
+                # the new state must have bit s clear and every other bit unchanged
+                # (covers `^= bit`, `-= bit` and `x &= x - 1`)
                 for i in range(64):
-                    gi = assume(got[i], ("a", s), 1)
-                    wi = const_bit(0) if i == s else assume(A[i], ("a", s), 1)
-                    if gi != wi:
+                    wi = const_bit(0) if i == s else As[i]
+                    if got[i] != wi:
                         bad.append((s, i))
                         break
-            okp = sqidx is not None and sqidx[2][1] == ("field", ("downcast", r, "Some"), "0")
+            # if the new state names a square at all, it is the yielded one (`x &= x - 1` names none)
+            okp = sqidx is None or sqidx[2][1] == ("field", ("downcast", r, "Some"), "0")
             ctx.check(okp and not bad, "iter.next:removes-yielded", "after yielding a square the state is not the old state with exactly that square's bit flipped: %s" % bad[:3], loc(b),
                       sample={"iter.next": "state ^= bit(yielded)", "cases": 64})
         elif d is not None:
@@ -331,8 +333,32 @@ def run(ctx):
             newsub = o.field(o.field(st, f_sub), "0")
             newfin = o.field(st, f_fin)
             # accepted idioms: (subset - set) & set   |   ((subset | !set) + 1) & set
+            def lin(e):
+                """e as a linear form modulo 2^64 over opaque terms: ({term: coefficient}, constant); !x == -x - 1"""
+                M_ = 1 << 64
+                if e[0] == "int":
+                    return {}, e[1] % M_
+                if e[0] == "cast":
+                    return lin(e[2])
+                if (e[0] == "bin" and e[1] in ("Add", "Sub")) or (e[0] == "call" and e[1].rsplit("::", 1)[-1] in ("wrapping_add", "wrapping_sub") and len(e[2]) == 2):
+                    if e[0] == "bin":
+                        op_, x_, y_ = e[1], e[2], e[3]
+                    else:
+                        op_, x_, y_ = ("Add" if e[1].endswith("wrapping_add") else "Sub"), e[2][0], e[2][1]
+                    (ta, ca), (tb, cb) = lin(x_), lin(y_)
+                    sg = 1 if op_ == "Add" else -1
+                    out = dict(ta)
+                    for k_, v_ in tb.items():
+                        out[k_] = (out.get(k_, 0) + sg * v_) % M_
+                    return {k_: v_ for k_, v_ in out.items() if v_}, (ca + sg * cb) % M_
+                if e[0] == "un" and e[1] == "Not":
+                    ta, ca = lin(e[2])
+                    return {k_: (-v_) % M_ for k_, v_ in ta.items()}, (-ca - 1) % M_
+                return {e: 1}, 0
+
             def is_wsub(e, a, b_):
-                return (e[0] == "call" and e[1].endswith("wrapping_sub") and e[2] == (a, b_)) or (e[0] == "bin" and e[1] == "Sub" and e[2] == a and e[3] == b_)
+                # subset - set in any arithmetic spelling (a - b, a + !b + 1, ...)
+                return lin(e) == ({a: 1, b_: (1 << 64) - 1}, 0)
             ok1 = newsub[0] == "bin" and newsub[1] == "BitAnd" and ((is_wsub(newsub[2], sub0, set0) and newsub[3] == set0) or (is_wsub(newsub[3], sub0, set0) and newsub[2] == set0))
             ctx.check(ok1, "subsets:carry-rippler", "the subset step is not the carry-rippler (subset - set) & set: %s" % sym.show(newsub)[:160], loc(b),
                       sample={"step": sym.show(newsub)[:120]})
